@@ -3,6 +3,6 @@
 for ID in "$@"; do
   echo "=== $ID"
   /verif/lib/verify_seed.sh $ID 2>&1 | tail -2
-  if [ -f /verif/seeded/$ID/meta.json ]; then /verif/lib/run_seed.sh $ID 2>&1 | tail -4; fi
+  if [ -f /verif/seeded/$ID/meta.json ]; then /verif/lib/run_seed.sh $ID 2>&1 | tail -4; else echo "NOT CONFIRMED: $ID kept in /tmp for inspection"; continue; fi
   git -C /repo worktree remove --force /tmp/seed_$ID 2>/dev/null; rm -rf /tmp/seed_${ID}_out /tmp/seed_${ID}_demo_aside /tmp/seed_${ID}_*.log /tmp/seed_${ID}_prompt.txt
 done
